@@ -106,12 +106,12 @@ PopItem(l) == /\ UNCHANGED ex
                  ELSE \E k \in Dom(Abs(st[l])) :      \* the first key of the archive's own iteration order
                         Finish([op |-> "popitem", rs |-> <<k, Lookup(st[l], k)>>], Remove(st[l], k), l)
 PopKeys(l, ks) == /\ UNCHANGED ex
-                  /\ IF \A x \in ToSet(ks) : Abs(st[l])[x] # 0        \* the 'shadow' dict raises before anything is popped
+                  /\ IF (\A x \in ToSet(ks) : Abs(st[l])[x] # 0) /\ NoDup(ks)   \* the 'shadow' dict raises before anything is popped
                      THEN Finish([op |-> "popkeys", ks |-> ks, rs |-> [x \in 1..Len(ks) |-> Lookup(st[l], ks[x])]], RemoveAll(st[l], ks), l)
                      ELSE Finish([op |-> "popkeys", ks |-> ks] @@ KE, st[l], l)
 PopKeysD(l, ks, d) == /\ UNCHANGED ex
                       /\ Finish([op |-> "popkeysd", ks |-> ks, d |-> d,
-                                 rs |-> [x \in 1..Len(ks) |-> IF Has(st[l], ks[x]) THEN Lookup(st[l], ks[x]) ELSE d]], RemoveAll(st[l], ks), l)
+                                 rs |-> [x \in 1..Len(ks) |-> IF Has(st[l], ks[x]) /\ FirstOcc(ks, x) THEN Lookup(st[l], ks[x]) ELSE d]], RemoveAll(st[l], ks), l)
 SetDefault(l, k, v) == /\ UNCHANGED ex
                        /\ IF Has(st[l], k)     \* dir/file re-store the value they found; sql leaves the rows alone
                           THEN Finish([op |-> "setdefault", k |-> k, v |-> v, ri |-> Lookup(st[l], k)],
@@ -132,7 +132,7 @@ Eq(l, o, which) == /\ UNCHANGED ex /\ ex[o]
                    /\ Finish([op |-> which, o |-> o, ri |-> IF (Abs(st[l]) = Abs(st[o])) = (which # "ne") THEN 1 ELSE 0], st[l], l)
 
 Val(k, j) == 10 * k + j
-KeySeqs == {<<1>>, <<2>>, <<1, 2>>, <<2, 3>>}
+KeySeqs == {<<1>>, <<2>>, <<1, 2>>, <<2, 3>>, <<2, 1, 2>>}
 Live == {l \in 1..NL : ex[l]}
 
 Init == /\ st = [l \in 1..NL |-> EmptySt] /\ ex = [l \in 1..NL |-> l < NL]      \* the last location is the copy target
